@@ -24,13 +24,15 @@ def Holds (keys : List Bytes) (name : Bytes) (entries : List (Bytes × Bytes)) :
 any key, containing the separator byte), filter, offset, limit (negative, zero, positive) and direction.
 (`hlen` was added to the hand-written statement: with a negative limit the loop runs with limit
 `MaxInt64`, so it agrees with the specification only if the unlimited result has at most `MaxInt64`
-ids; see `fetch_unlimited_length` and `fetch_spec_needs_bound` below. `hname` and `ho` are not used.) -/
+ids; see `fetch_unlimited_length` and `fetch_spec_needs_bound` below. `hname` and `ho` are not used.)
+Keys and ids are only required to consist of bytes (≤ 255, `hbytes`; the model's bytes are natural
+numbers): a 0xFF byte directly after the prefix is found in both directions. -/
 theorem fetch_spec (keys : List Bytes) (name pre : Bytes) (entries : List (Bytes × Bytes))
     (filter : Bytes → Bool) (offset limit : Int) (reverse : Bool)
     (hs : Sorted keys) (hh : Holds keys name entries)
     (hn : ∀ e ∈ entries, NoNul e.1 ∧ NoNul e.2) (hname : NoNul name)
     (hd : (entries.map (·.2)).Nodup) (ho : 0 ≤ offset)
-    (h255 : ∀ e ∈ entries, ∀ c ∈ e.1 ++ e.2, c < 255)
+    (hbytes : ∀ e ∈ entries, ∀ c ∈ e.1 ++ e.2, c ≤ 255)
     (hlen : limit < 0 → (spec entries pre filter offset limit reverse).length ≤ 9223372036854775807) :
     fetch keys name pre filter offset limit reverse = some (spec entries pre filter offset limit reverse) := by
   have _ := hname; have _ := ho
@@ -46,11 +48,11 @@ theorem fetch_spec (keys : List Bytes) (name pre : Bytes) (entries : List (Bytes
     simp only [fetch, h0, ↓reduceIte]
     by_cases hneg : limit < 0
     · simp only [hneg, ↓reduceIte] at hlen ⊢
-      rw [fetch_eq keys name pre entries filter offset _ reverse hs hh hn hnd (fun _ => h255) (by omega)]
+      rw [fetch_eq keys name pre entries filter offset _ reverse hs hh hn hnd (fun _ => hbytes) (by omega)]
       rw [List.take_of_length_le]
       simpa using hlen
     · simp only [hneg, ↓reduceIte]
-      rw [fetch_eq keys name pre entries filter offset _ reverse hs hh hn hnd (fun _ => h255) (by omega)]
+      rw [fetch_eq keys name pre entries filter offset _ reverse hs hh hn hnd (fun _ => hbytes) (by omega)]
 
 /-- `fetch_spec` for an index of at most `MaxInt64` entries -/
 theorem fetch_spec_of_length (keys : List Bytes) (name pre : Bytes) (entries : List (Bytes × Bytes))
@@ -58,10 +60,10 @@ theorem fetch_spec_of_length (keys : List Bytes) (name pre : Bytes) (entries : L
     (hs : Sorted keys) (hh : Holds keys name entries)
     (hn : ∀ e ∈ entries, NoNul e.1 ∧ NoNul e.2) (hname : NoNul name)
     (hd : (entries.map (·.2)).Nodup) (ho : 0 ≤ offset)
-    (h255 : ∀ e ∈ entries, ∀ c ∈ e.1 ++ e.2, c < 255)
+    (hbytes : ∀ e ∈ entries, ∀ c ∈ e.1 ++ e.2, c ≤ 255)
     (hlen : entries.length ≤ 9223372036854775807) :
     fetch keys name pre filter offset limit reverse = some (spec entries pre filter offset limit reverse) := by
-  apply fetch_spec keys name pre entries filter offset limit reverse hs hh hn hname hd ho h255
+  apply fetch_spec keys name pre entries filter offset limit reverse hs hh hn hname hd ho hbytes
   intro hneg
   have h0 : ¬ limit = 0 := by omega
   simp only [spec, h0, hneg, ↓reduceIte, List.length_map, List.length_drop]
@@ -90,7 +92,7 @@ theorem fetch_spec_needs_bound :
         Sorted keys → Holds keys name entries →
         (∀ e ∈ entries, NoNul e.1 ∧ NoNul e.2) → NoNul name →
         (entries.map (·.2)).Nodup → 0 ≤ offset →
-        (∀ e ∈ entries, ∀ c ∈ e.1 ++ e.2, c < 255) →
+        (∀ e ∈ entries, ∀ c ∈ e.1 ++ e.2, c ≤ 255) →
         fetch keys name pre filter offset limit reverse = some (spec entries pre filter offset limit reverse)) := by
   intro hall
   let N : Nat := 9223372036854775808
@@ -138,13 +140,13 @@ theorem fetch_spec_needs_bound :
     intro i j hij h
     have := congrArg List.length h
     simp at this; omega
-  have h255 : ∀ e ∈ entries, ∀ c ∈ e.1 ++ e.2, c < 255 := by
+  have hbytes : ∀ e ∈ entries, ∀ c ∈ e.1 ++ e.2, c ≤ 255 := by
     intro e he c hc
     obtain ⟨h1, i, h2⟩ := hmem e he
     rw [h1, h2, List.nil_append] at hc
     rw [List.eq_of_mem_replicate hc]; decide
   have h := hall keys [] [] entries (fun _ => true) 0 (-1) false hsorted hholds hnul
-    (by intro c hc; cases hc) hnodup (Int.le_refl 0) h255
+    (by intro c hc; cases hc) hnodup (Int.le_refl 0) hbytes
   have hle := fetch_unlimited_length _ _ _ _ _ _ _ _ (by decide) h
   have hlen : (spec entries [] (fun _ => true) 0 (-1) false).length = N := by
     have e1 : ¬ ((-1 : Int) = 0) := by decide
@@ -188,5 +190,15 @@ theorem limit_zero (keys : List Bytes) (name pre : Bytes) (filter : Bytes → Bo
 -- index "k" (107) with entries ("a","1"), ("ab","2"): keys "k:a\01", "k:ab\02"
 example : fetch [[107,58,97,0,49], [107,58,97,98,0,50]] [107] [97] (fun _ => true) 0 (-1) true = some [[50], [49]] := by decide
 example : spec [([97],[49]), ([97,98],[50])] [97] (fun _ => true) 0 (-1) true = [[50], [49]] := by decide
+-- a key with the byte 0xFF right after the prefix is found by the reverse scan: keys "k:\x01\01",
+-- "k:\x01\xff\02", "k:\x02\03", prefix "k:\x01"
+example : scan [[107,58,1,0,49], [107,58,1,255,0,50], [107,58,2,0,51]] [107,58,1] true =
+    [[107,58,1,255,0,50], [107,58,1,0,49]] := by decide
+example : fetch [[107,58,1,0,49], [107,58,1,255,0,50], [107,58,2,0,51]] [107] [1] (fun _ => true) 0 (-1) true =
+    some [[50], [49]] := by decide
+example : spec [([1],[49]), ([1,255],[50]), ([2],[51])] [1] (fun _ => true) 0 (-1) true = [[50], [49]] := by decide
+-- the end of a prefix: trailing 0xFF bytes are stripped, the last byte is incremented
+example : prefixEnd [107,58,255] = some [107,59] := by decide
+example : prefixEnd [255,255] = none := by decide
 
 end GoRes.Props.C13
